@@ -188,7 +188,7 @@ impl Module for M {
         for _ in 0..(if quick { 300 } else { 10_000 }) {
             emit(format!("scale.dotted rect {} {} {} {} - 9 {} {}", coord(rng), coord(rng), biased(rng), biased(rng), *rng.pick(&WIDTHS), rng.below(3)));
         }
-        let n = if quick { 2500 } else { 60_000 };
+        let n = if quick { 2500 } else { 36_000 };
         for _ in 0..n {
             let w = if rng.chance(3, 4) { *rng.pick(&WIDTHS) } else { rng.range(0, 128) };
             let f = if rng.chance(1, 2) { "7" } else { "-" };
@@ -197,7 +197,7 @@ impl Module for M {
         }
         // text
         let strings: [&[u32]; 9] = [&[], &[65], &[10], &[10, 10, 10], &[65, 66, 13, 10, 67], &[0x1F600, 0, 9, 127], &[72, 101, 108, 108, 111, 32, 119, 10, 111, 114, 108, 100], &[32, 32, 32], &[0xE9, 0xFC, 10, 0xDF]];
-        let nt = if quick { 1200 } else { 30_000 };
+        let nt = if quick { 1200 } else { 18_000 };
         for i in 0..nt {
             let font = if i % 7 == 0 { "null".to_string() } else { format!("{}", rng.below(4)) };
             let (lhk, lhv) = match rng.below(3) {
